@@ -220,6 +220,15 @@ FAMILIES = {
 }
 
 
+# matched pairs interleaved with stray closers / openers (all 2- and 3-atom cycles over a small alphabet of emphasis shapes)
+_EMPH_ATOMS = ["*a* ", "b* ", "*c ", "**d** ", "e** ", "_f_ ", "g_ ", "~~h~~ ", "i~~ "]
+for _i, _x in enumerate(_EMPH_ATOMS):
+    for _j, _y in enumerate(_EMPH_ATOMS):
+        if _i != _j:
+            FAMILIES[f"emph_mix_{_i}{_j}"] = (rep(_x + _y), ["tokenize"], ["strikethrough"] if "~~" in _x + _y else [])
+AUTO_CM_ONLY = tuple(k for k in FAMILIES if k.startswith("emph_mix_"))
+
+
 def build(name, length):
     """document of family `name` with about `length` characters"""
     fn = FAMILIES[name][0]
